@@ -843,6 +843,7 @@ fn crafted_c05(w: &World) -> Vec<VJob> {
 
 fn c02_jobs(r: &mut Rng, w: &World, thorough: bool) -> Vec<VJob> {
     let mut jobs = common_families(r, w, thorough);
+    jobs.extend(two_locals_jobs(w));
     // credential 1 (index 1 of the registry) is valid in lists 0,1 and revoked in list 2;
     // credential 4 (index 2, holder 1) is valid in list 0 only
     let ivs: Vec<Option<Iv>> = vec![None, Some((None, None)), Some((Some(50), Some(400))), Some((Some(250), None)), Some((None, Some(150)))];
@@ -901,6 +902,21 @@ fn c02_jobs(r: &mut Rng, w: &World, thorough: bool) -> Vec<VJob> {
                         }
                     }
                 }
+            }
+        }
+    }
+    jobs
+}
+
+/// an attribute referent and a predicate referent of ONE credential, each with its own local interval
+fn two_locals_jobs(w: &World) -> Vec<VJob> {
+    let mut jobs = vec![];
+    for fmt in [Fmt::Legacy, Fmt::W3C] {
+        for (a, b) in [((Some(50u64), Some(400u64)), (Some(250u64), None)), ((Some(250), None), (Some(50), Some(400))), ((None, Some(250)), (Some(150), None)), ((Some(150), None), (None, Some(250)))] {
+            for list in [Some(0usize), Some(1), Some(2)] {
+                let build = ReqSpec::new(NONCE).attr("a_name", "name").pred("p_h", "height", ">=", 100).global((None, None));
+                let verify = ReqSpec::new(NONCE).attr("a_name", "name").pred("p_h", "height", ">=", 100).local("a_name", a).local("p_h", b);
+                jobs.push(job("revocation:attribute-and-predicate-intervals", fmt, &build, &verify, vec![pick(1, &[("a_name", true)], &["p_h"], list)], w));
             }
         }
     }
@@ -969,6 +985,27 @@ fn c08_jobs(_r: &mut Rng, w: &World, thorough: bool) -> Vec<VJob> {
                 jobs.push(j);
             }
         }
+        // the status list stamped 0 (a timestamp like any other)
+        for g in [(None, Some(50u64)), (None, None), (Some(0), Some(10)), (Some(1), Some(50))] {
+            for placement in ["global", "local"] {
+                let build = ReqSpec::new(NONCE).attr("a_name", "name").global((None, None));
+                let verify = if placement == "global" { ReqSpec::new(NONCE).attr("a_name", "name").global(g) } else { ReqSpec::new(NONCE).attr("a_name", "name").local("a_name", g) };
+                let mut j = job("intervals:list-stamped-zero", fmt, &build, &verify, vec![pick(1, &[("a_name", true)], &[], Some(3))], w);
+                j.base = Base::StripIntervals;
+                jobs.push(j);
+            }
+        }
+        // the prover names a timestamp for which no list is supplied (earlier and later lists exist)
+        for (g, ts) in [((Some(120), Some(180)), 150u64), ((None, Some(260)), 250), ((Some(310), None), 350), ((None, None), 150)] {
+            for list in [Some(0usize), Some(1)] {
+                let build = ReqSpec::new(NONCE).attr("a_name", "name").global((None, None));
+                let verify = ReqSpec::new(NONCE).attr("a_name", "name").global(g);
+                let mut j = job("intervals:timestamp-named-without-list", fmt, &build, &verify, vec![pick(1, &[("a_name", true)], &[], list)], w);
+                j.base = Base::StripIntervals;
+                j.muts = if fmt == Fmt::Legacy { vec![Mut::IdentSet(0, "timestamp", json!(ts))] } else { vec![Mut::WIdent(0, "timestamp", json!(ts))] };
+                jobs.push(j);
+            }
+        }
         // non-revocable credential only: intervals are ignored
         for g in [Some((Some(5), Some(6))), None] {
             let build = ReqSpec::new(NONCE).attr("a_name", "name");
@@ -980,6 +1017,11 @@ fn c08_jobs(_r: &mut Rng, w: &World, thorough: bool) -> Vec<VJob> {
             j.base = Base::StripIntervals;
             jobs.push(j);
         }
+    }
+    for mut j2 in two_locals_jobs(w) {
+        j2.base = Base::StripIntervals;
+        j2.class = "intervals:attribute-and-predicate-locals".into();
+        jobs.push(j2);
     }
     jobs
 }
@@ -1040,6 +1082,18 @@ fn c06_jobs(r: &mut Rng, w: &World, thorough: bool) -> Vec<VJob> {
                     }
                     let verify = spec.clone().restr(rf, q.clone());
                     let mut j = job(&format!("restriction:{}:{}", sname, if rf.starts_with("p_") { "predicate" } else if *rf == "g" { "group" } else { "attribute" }), fmt, spec, &verify, picks.clone(), w);
+                    j.base = Base::StripRestrictions;
+                    jobs.push(j);
+                }
+            }
+            // the same restriction on two referents served by different credentials
+            if refs.len() >= 2 && (*sname == "same-schema-two-creddefs" || *sname == "two-creds") {
+                for q in &pool {
+                    if !thorough && pool.len() > 100 && r.chance(1, 2) {
+                        continue;
+                    }
+                    let verify = spec.clone().restr(refs[0], q.clone()).restr(refs[refs.len() - 1], q.clone());
+                    let mut j = job(&format!("restriction:{}:two-referents", sname), fmt, spec, &verify, picks.clone(), w);
                     j.base = Base::StripRestrictions;
                     jobs.push(j);
                 }
